@@ -24,6 +24,7 @@ from . import boot as _boot
 DOC_SYSTEM_PREFIXES = ("kubectl.kubernetes.io/", "deploy.llamaindex.ai/")
 DOC_CLUSTER_FIELDS = ("resourceVersion", "uid", "creationTimestamp", "generation", "managedFields", "selfLink", "deletionTimestamp")
 DOC_USER_FIELDS = ("name", "namespace", "labels")
+DOC_USER_FIELDS_SECRET = DOC_USER_FIELDS + ("finalizers",)  # "_SECRET_METADATA_KEEP = {..., finalizers}"
 
 META_POOL = ["name", "namespace", "labels", "annotations", "finalizers", "uid", "resourceVersion", "creationTimestamp", "generation",
              "managedFields", "ownerReferences", "selfLink", "deletionTimestamp", "deletionGracePeriodSeconds", "generateName",
@@ -156,7 +157,7 @@ def run_clean(I: Any, case: dict, out: Any, ops: list[str], impl: list[str], ctx
         for k in DOC_CLUSTER_FIELDS:
             if k in rmd:
                 bad.append((f"left:{k}", f"cluster-specific metadata.{k} is still there"))
-        for k in DOC_USER_FIELDS:
+        for k in (DOC_USER_FIELDS_SECRET if which == "secret" else DOC_USER_FIELDS):
             if k in omd and (k not in rmd or canon(rmd[k]) != canon(omd[k])):
                 bad.append((f"dropped:{k}", f"metadata.{k} was {'dropped' if k not in rmd else 'changed'}"))
         for k, v in rmd.items():
@@ -297,6 +298,16 @@ class Service:
             return loop.run_until_complete(coro)
         finally:
             loop.close()
+
+
+_SERVICE_SINGLETON: list[Service] = []
+
+
+def get_service() -> Service:
+    """one per process: the service module is imported once and stays wired to the collaborators it was imported with"""
+    if not _SERVICE_SINGLETON:
+        _SERVICE_SINGLETON.append(Service())
+    return _SERVICE_SINGLETON[0]
 
 
 CLUSTER_NAMES = ["web", "api", "db", "a", "z9", "app-1", "my-secret", "secret", "x-secret", "meta", "x-meta", "yaml", "json", "enc", "manifest",
